@@ -86,9 +86,16 @@ void checkMapR(Ctx& ctx, const ref::RMap& r, const std::string& key)
 	auto itw = regeneratedWord.find(r.groups.size());
 	uint32_t conventional = itw != regeneratedWord.end() ? itw->second : (r.groups.empty() ? 0 : uint32_t(r.groups.size() - 1));
 	bool writerForm = r.savedGame <= 1 && r.undocumented == conventional;
+	// degenerate shapes (narrower than one 32-column block, no rows, a tile group without area) need not be accepted
+	bool degenerate = r.lgWidth < 5 || r.height == 0;
+	for (auto& g : r.groups) if (g.idx.empty()) degenerate = true;
+	if (r.lgWidth == 0) ctx.count("shape/width-1");
+	if (r.height == 0) ctx.count("shape/height-0");
+	for (auto& g : r.groups) if (g.idx.empty()) ctx.count("shape/zero-area-group");
+	for (auto& s : r.sources) if (s.name.empty()) ctx.count("shape/empty-source-name");
 	if (o.cls != 'R') {
-		if (writerForm) bad("well-formed-map-rejected", o.what);
-		else ctx.count("accept/unnormalised-variant-rejected");
+		if (writerForm && !degenerate) bad("well-formed-map-rejected", o.what);
+		else ctx.count(writerForm ? "accept/degenerate-shape-rejected" : "accept/unnormalised-variant-rejected");
 		return;
 	}
 	ctx.count(writerForm ? "accept/writer-form" : "accept/unnormalised-variant");
@@ -150,10 +157,6 @@ void checkMapR(Ctx& ctx, const ref::RMap& r, const std::string& key)
 	}
 	ctx.state(); ctx.trace();
 	ctx.outcome(mc::fnv(w1.data(), w1.size()));
-	if (r.lgWidth == 0) ctx.count("shape/width-1");
-	if (r.height == 0) ctx.count("shape/height-0");
-	for (auto& g : r.groups) if (g.idx.empty()) ctx.count("shape/zero-area-group");
-	for (auto& s : r.sources) if (s.name.empty()) ctx.count("shape/empty-source-name");
 }
 
 // ---- edit histories ----
